@@ -163,6 +163,31 @@ CHECKS = {
             'Theorems in lean/DesperProofs/Props/C17.lean (C17_mirror, C17_immutable).',
             'Trusted: Lean kernel; reading of the statement; correspondence harness (bounded by generators).  CPython dict / ChainMap semantics are modelled (heap model with typed stores), not verified.' + '  Names colliding with StaticResourceMap members are excluded (the statement\'s own exclusion).',
             '§5 C17'),
+    'C08': ('correspondence',
+            'Lean 4 theorems over a coroutine-processor model (deque with sentinel, heap as a bag with validated '
+            'tie hints, scripts as generators) for all histories, dt sequences and hints: one step per frame, order '
+            'stability, exact wake-up via the wait-record invariant; tied to coroutines.py by correspondence',
+            'Theorems in lean/DesperProofs/Props/C08.lean (C08_one_step, C08_frame_runs_in_deque_order, '
+            'C08_order_stable, C08_nonpositive_is_next_frame, C08_wake_exact, C08_progress_counts_logged_steps).  '
+            'Correspondence: 1-6 scripts, waits from none/0/negative/1/8..4, dt from 0..2, 20-60 frames.',
+            'Trusted: Lean kernel; reading of the statement; correspondence harness (bounded by generators).  Generator objects are scripts (steps of in-body start/kill/state actions followed by yield or return); bodies that raise, call process recursively or yield non-numbers are out of scope; heapq tie order is a validated hint; times are multiples of 1/8 s (exact in binary floating point), float rounding not modelled.', '§5 C08'),
+    'C09': ('correspondence',
+            'Lean 4 theorems: table coherence invariant over all start/kill/state/process interleavings from outside '
+            'and inside bodies, process total, state characterisation, errors leave the state unchanged, kill final, '
+            'promise values, release; tied to coroutines.py by correspondence incl. exhaustive short histories',
+            'Theorems in lean/DesperProofs/Props/C09.lean (C09_process_total, C09_tables_coherent, C09_state, '
+            'C09_errors, C09_kill_final, C09_promise, C09_released).  Correspondence: random + every history of <= 4 '
+            '(quick) / <= 6 (thorough) operations over small script families; weakref/gc check of finished generators.',
+            'Trusted: Lean kernel; reading of the statement; correspondence harness (bounded by generators).  Generator objects are scripts (steps of in-body start/kill/state actions followed by yield or return); bodies that raise, call process recursively or yield non-numbers are out of scope; heapq tie order is a validated hint; times are multiples of 1/8 s (exact in binary floating point), float rounding not modelled.' + '  Collectability of finished generators is runtime behaviour: observed, not proved.', '§5 C09'),
+    'C19': ('correspondence',
+            'Lean 4 theorems (shorthand = World call for the recorded entity; Controller.on_add records the owner; '
+            'prototype three-way construction rule; on_update relayed once per listener) + twin-world differential '
+            'run on the real code and correspondence with the world / prototype models',
+            'Theorems in lean/DesperProofs/Props/C19.lean.  Correspondence (a) twin worlds: the same history through '
+            'Controller shorthands / ComponentReference / ProcessorReference and through plain World calls must give '
+            'identical results, callbacks and full snapshots after every operation; (b) Prototype subclass families '
+            'over all source combinations, custom/empty prefixes, overrides, colliding type names, double iteration.',
+            'Trusted: Lean kernel; reading of the statement; correspondence harness.  The shorthand theorems hold by unfolding in the model, so for that clause the assurance is the twin-world differential run on the real code.', '§5 C19'),
 }
 
 NOT_YET = 'check not built yet (work in progress; see DESIGN.md §5 for the plan)'
